@@ -68,6 +68,8 @@ type fnExec struct {
 	errors   []string
 	strIDs   map[string]int
 	wfSeen     map[int]bool
+	modelNames map[string]string // defined name -> readable term, for model output
+	instLevel  int // 0: no instances of quantified hypotheses, 1: goal terms only, 2: full
 	blkMarks   []blkMark
 	reach      map[*ssa.BasicBlock]map[*ssa.BasicBlock]bool
 	opaque     map[*Term]*Term // opaque term -> exact definition
